@@ -1,4 +1,4 @@
-"""C10: iterator generators and the abstract-cursor oracle."""
+"""C10 / C14: iterator generators (ARBITRARY Rewind / Next / Seek sequences) and the abstract-cursor oracle."""
 from . import core
 
 
@@ -14,6 +14,10 @@ def key_set(rng, n):
     return sorted(ks)
 
 
+import collections
+STATS = collections.Counter()      # what kinds of Seek the generated sequences contained (reported by the checks)
+
+
 class AbsCursor:
     def __init__(self, items, rev, pre=b""):
         its = [kv for kv in items if kv[0].startswith(pre)]
@@ -27,6 +31,19 @@ class AbsCursor:
                 return j
         return len(self.a)
 
+    def seek(self, k):
+        """Seek never moves a cursor backwards: the lower bound of the target unless that lies behind the cursor;
+        nothing on an exhausted cursor (Abs.seek of Model/ShardIter.lean)"""
+        if self.i < len(self.a):
+            j = self.lower(k)
+            if j >= self.i:
+                STATS["seek_moves_forward" if j > self.i else "seek_to_current_position"] += 1
+                self.i = j
+            else:
+                STATS["seek_backward_ignored"] += 1
+        else:
+            STATS["seek_on_exhausted_ignored"] += 1
+
     def state(self, fmt):
         if self.i < len(self.a):
             return "it %s %s" % (self.a[self.i][0].hex() or "-", fmt(self.a[self.i][1]))
@@ -34,18 +51,23 @@ class AbsCursor:
 
 
 def seek_target(rng, cur, keys):
-    """an admissible target: at or ahead of the cursor (anything on a fresh/rewound iterator)"""
+    """an ARBITRARY target: ahead of the cursor, behind it (a key already passed), the current key, between two
+    keys, before the first / after the last key, on a live or an exhausted cursor"""
     for _ in range(20):
         r = rng.random()
-        if r < 0.5 and cur.a:
-            k = rng.choice(cur.a)[0]
-        elif r < 0.8 and keys:
-            k = rng.choice(keys) + rng.choice([b"", b"\x00", b"\xff"])
+        if r < 0.25 and cur.i > 0 and cur.a:
+            k = rng.choice(cur.a[:cur.i])[0]                    # a key already passed
+            if rng.random() < 0.3:
+                k += rng.choice([b"\x00", b"\xff"])
+        elif r < 0.5 and cur.a:
+            k = rng.choice(cur.a)[0]                            # any key of the (prefix-filtered) snapshot
+        elif r < 0.6 and cur.i < len(cur.a):
+            k = cur.a[cur.i][0] + rng.choice([b"", b"", b"\x00"])   # the current key / just after it
+        elif r < 0.85 and keys:
+            k = rng.choice(keys) + rng.choice([b"", b"\x00", b"\xff"])   # any key of the snapshot, prefix or not
         else:
             k = bytes(rng.randrange(256) for _ in range(rng.randrange(0, 3)))
-        if not k:
-            continue
-        if cur.i == 0 or cur.lower(k) >= cur.i:
+        if k:
             return k
     return None
 
@@ -83,6 +105,8 @@ def index_level(rng, typ, shards, ncalls):
         cid = rng.choice(list(curs))
         c = curs[cid]
         r = rng.random()
+        if c.i >= len(c.a) and rng.random() < 0.4:
+            r = 0.5                 # an exhausted cursor is rewound more often, so that the sequences stay interesting
         if r < 0.45:
             ops.append("ixit.next " + cid)
             if c.i < len(c.a):
@@ -92,12 +116,19 @@ def index_level(rng, typ, shards, ncalls):
             c.i = 0
         elif r < 0.9:
             k = seek_target(rng, c, keys)
-            if k is None or c.i >= len(c.a):
-                # Seek on an exhausted iterator is a no-op in the code (until Rewind): only rewound seeks claimed
+            if k is None:
                 ops.append("ixit.state " + cid)
             else:
+                # any target, on any cursor state (live, exhausted, just seeked): several Seeks in a row arise
+                # from this branch being taken repeatedly and from the burst below
                 ops.append("ixit.seek %s %s" % (cid, k.hex()))
-                c.i = c.lower(k)
+                c.seek(k)
+                for _ in range(rng.choice([0, 0, 0, 1, 2])):
+                    k2 = seek_target(rng, c, keys)
+                    if k2 is not None:
+                        exp.append(c.state(str))
+                        ops.append("ixit.seek %s %s" % (cid, k2.hex()))
+                        c.seek(k2)
         else:
             # writes after creation must not disturb the snapshot
             k = rng.choice(keys) if keys else b"zz"
@@ -141,6 +172,8 @@ def db_level(rng, cfg_line, ncalls):
         cid = rng.choice(list(curs))
         c = curs[cid]
         r = rng.random()
+        if c.i >= len(c.a) and rng.random() < 0.4:
+            r = 0.5
         if r < 0.45:
             ops.append("it.next " + cid)
             if c.i < len(c.a):
@@ -150,11 +183,17 @@ def db_level(rng, cfg_line, ncalls):
             c.i = 0
         elif r < 0.88:
             k = seek_target(rng, c, keys)
-            if k is None or c.i >= len(c.a):
+            if k is None:
                 ops.append("it.state " + cid)
             else:
                 ops.append("it.seek %s %s" % (cid, k.hex()))
-                c.i = c.lower(k)
+                c.seek(k)
+                for _ in range(rng.choice([0, 0, 0, 1, 2])):
+                    k2 = seek_target(rng, c, keys)
+                    if k2 is not None:
+                        exp.append(c.state(core.fmt_val))
+                        ops.append("it.seek %s %s" % (cid, k2.hex()))
+                        c.seek(k2)
         else:
             k = rng.choice(keys)
             seed += 1
